@@ -50,10 +50,26 @@ fn machinery(msg: &str) -> ! {
     std::process::exit(2)
 }
 
+/// transport-level readiness of a helper service (deliberately not through the client library under test)
+fn raw_connect(addr: &str) -> bool {
+    if let Some(hp) = addr.strip_prefix("tcp:") {
+        return std::net::TcpStream::connect(hp).is_ok();
+    }
+    if let Some(p) = addr.strip_prefix("unix:") {
+        let p = p.split(';').next().unwrap_or(p);
+        if let Some(name) = p.strip_prefix('@') {
+            use std::os::linux::net::SocketAddrExt;
+            return std::os::unix::net::SocketAddr::from_abstract_name(name.as_bytes()).and_then(|a| std::os::unix::net::UnixStream::connect_addr(&a)).is_ok();
+        }
+        return std::os::unix::net::UnixStream::connect(p).is_ok();
+    }
+    false
+}
+
 fn wait_connectable(addr: &str) -> bool {
     let t0 = Instant::now();
     while t0.elapsed() < Duration::from_secs(5) {
-        if varlink::varlink_connect(addr).is_ok() {
+        if raw_connect(addr) {
             return true;
         }
         std::thread::sleep(Duration::from_millis(10));
@@ -193,8 +209,13 @@ fn free_tcp_port() -> u16 {
     l.local_addr().unwrap().port()
 }
 
+fn free_tcp6_port() -> u16 {
+    let l = std::net::TcpListener::bind("[::1]:0").unwrap_or_else(|e| machinery(&format!("no IPv6 loopback: {}", e)));
+    l.local_addr().unwrap().port()
+}
+
 fn c16(args: &Args) -> ! {
-    let mut rep = Report::new("C16", "configuration matrix, one OS schedule per case: (1) transports {unix path, unix path;mode=0600, unix:@abstract, tcp:127.0.0.1:port, with_activate(service), with_bridge(service --stdio)} x every sequence of client operations of length<=2 (thorough 3) over {GetInfo, Echo, Fail, Stream+drain, oneway Echo, unknown interface} through the real client API in a capped subprocess, results compared with an in-memory run of the same operations against the same interface; (2) activation contract read back from the spawned service (descriptor 3 listening unix socket, LISTEN_FDS/LISTEN_FDNAMES/LISTEN_PID/VARLINK_ADDRESS) with the parent's lowest free descriptor {3, >3}; (1b) both filesystem socket paths carry a stale socket file when the server starts; address and with_activate transports open a second connection through Connection::address(); (2b) a foreign activator hands a blocking / O_NONBLOCK listening socket as descriptor 3 to a service running listen() with the default configuration, three clients in a row must be served; (3) server side: LISTEN_FDS x LISTEN_PID x LISTEN_FDNAMES x address scheme (576 cases, all in both tiers) against the sd_listen_fds reference; (4) address strings scheme x tail: client and server agree on InvalidAddress; non-trivial = distinct (part, configuration, sequence)");
+    let mut rep = Report::new("C16", "configuration matrix, one OS schedule per case: (1) transports {unix path, unix path;mode=0600, unix:@abstract, tcp:127.0.0.1:port, tcp:[::1]:port, with_activate(service), with_bridge(service --stdio)} x every sequence of client operations of length<=2 (thorough 3) over {GetInfo, Echo, Fail, Stream+drain, oneway Echo, unknown interface} through the real client API in a capped subprocess, results compared with an in-memory run of the same operations against the same interface; (2) activation contract read back from the spawned service (descriptor 3 listening unix socket, LISTEN_FDS/LISTEN_FDNAMES/LISTEN_PID/VARLINK_ADDRESS) with the parent's lowest free descriptor {3, >3}; (1b) both filesystem socket paths carry a stale socket file when the server starts; address and with_activate transports open a second connection through Connection::address(); (2b) a foreign activator hands a blocking / O_NONBLOCK listening socket as descriptor 3 to a service running listen() with the default configuration, three clients in a row must be served; (3) server side: LISTEN_FDS x LISTEN_PID x LISTEN_FDNAMES x address scheme (576 cases, all in both tiers) against the sd_listen_fds reference; (4) address strings scheme x tail: client and server agree on InvalidAddress; non-trivial = distinct (part, configuration, sequence)");
     let dir = tempfile::Builder::new().prefix("px16").tempdir_in("/dev/shm").or_else(|_| tempfile::tempdir()).unwrap();
     let d = dir.path().to_path_buf();
     let replay = args.replay_case();
@@ -208,6 +229,7 @@ fn c16(args: &Args) -> ! {
         ("unix-mode", format!("unix:{}/s2;mode=0600", d.display())),
         ("abstract", format!("unix:@{}", abstract_name)),
         ("tcp", format!("tcp:127.0.0.1:{}", port)),
+        ("tcp6", format!("tcp:[::1]:{}", free_tcp6_port())),
     ];
     // a stale socket file from an earlier run is in the way of both filesystem addresses (the server removes it)
     for n in ["s1", "s2"] {
@@ -551,7 +573,7 @@ fn spawn_resolver(addr: &str, map: &[(String, String)]) -> Proc {
 }
 
 fn c20(args: &Args) -> ! {
-    let mut rep = Report::new("C20", "the real `varlink call` binary against a scripted service, one OS schedule per case: reply values {{}, nested objects/arrays 3 deep, non-ASCII and escape-heavy strings, i64::MIN, u64::MAX, 1e300, -0.0, empty-string keys} x {call; --more with k in 0..=3 continues replies; error with and without parameters; error in the middle of a stream; connection closed mid-stream} x address forms {unix path with several slashes and dots in directory names, abstract, tcp, bare interface.method through a -R resolver} x --color {on, off}; oracle: stdout (escape sequences stripped) parsed as a stream of JSON values equals the parameters of the successful replies in order, exit status 0 exactly when every expected reply arrived and none was an error, on an error reply stderr names the error (and contains its parameters as JSON when present); non-trivial = distinct (value, mode, address form, colour)");
+    let mut rep = Report::new("C20", "the real `varlink call` binary against a scripted service, one OS schedule per case: reply values {{}, nested objects/arrays 3 deep, non-ASCII and escape-heavy strings, i64::MIN, u64::MAX, 1e300, -0.0, empty-string keys} x {call; --more with k in 0..=3 continues replies; error with and without parameters; error in the middle of a stream; connection closed mid-stream} x address forms {unix path with several slashes and dots in directory names, abstract, tcp over IPv4 and over a bracketed IPv6 literal, bare interface.method through a -R resolver} x --color {on, off}; oracle: stdout (escape sequences stripped) parsed as a stream of JSON values equals the parameters of the successful replies in order, exit status 0 exactly when every expected reply arrived and none was an error, on an error reply stderr names the error (and contains its parameters as JSON when present); non-trivial = distinct (value, mode, address form, colour)");
     if !Path::new(VARLINK_CLI).exists() {
         machinery("varlink CLI binary missing (./check --setup builds it)");
     }
@@ -563,6 +585,7 @@ fn c20(args: &Args) -> ! {
         ("unix-slashes-dots", format!("unix:{}/a.b/c.d/e/sock", d.display())),
         ("abstract", format!("unix:@org.verif.px20.{}", std::process::id())),
         ("tcp", format!("tcp:127.0.0.1:{}", port)),
+        ("tcp6", format!("tcp:[::1]:{}", free_tcp6_port())),
     ];
     let _servers: Vec<Proc> = forms.iter().map(|(_, a)| spawn_service(a, "org.verif.a")).collect();
     let raddr = format!("unix:{}/resolver", d.display());
@@ -807,6 +830,8 @@ fn c18(args: &Args) -> ! {
         ("gid-a", json!({"method": "org.varlink.service.GetInterfaceDescription", "parameters": {"interface": "org.verif.a"}})),
         // an upgrade-flagged call that nobody implements: refused, the session is not upgraded
         ("unknown-upgrade", json!({"method": "org.nope.X", "upgrade": true, "parameters": {}})),
+        // a oneway service-info query: re-targeted to the resolver in resolver mode, it must stay unanswered
+        ("oneway-getinfo", json!({"method": "org.varlink.service.GetInfo", "oneway": true})),
     ];
     let svc = svc_exe();
     let modes: Vec<(&str, Vec<String>)> = vec![
